@@ -112,6 +112,12 @@ def unit_values(schema: Schema, u: Unit, name: str, level: str) -> List[Dict[str
         if level == "full":
             out += [{name: [a, b]} for a in red for b in red]
             out.append({name: [red[-1], red[0], red[-1]]})
+            # sizes beyond the one-byte and two-byte length prefixes: 130 elements, and a packed
+            # payload / element count above 16 383
+            nd = red[min(1, len(red) - 1)]
+            out.append({name: [nd] * 130})
+            if av.base_kind(u.kind) not in ("msg", "wrap", "timestamp", "duration"):
+                out.append({name: [nd] * 17000})
         else:
             out.append({name: [red[-1], red[0]]})
     elif u.card == "map":
@@ -123,6 +129,9 @@ def unit_values(schema: Schema, u: Unit, name: str, level: str) -> List[Dict[str
         if level == "full":
             out.append({name: {keys[0]: red[0], keys[-1]: red[-1]}})
             out.append({name: {keys[-1]: red[-1], keys[1]: red[0], keys[0]: red[min(1, len(red) - 1)]}})
+            if u.key != "bool":
+                many = [f"k{i:03d}" for i in range(130)] if u.key == "string" else list(range(130))
+                out.append({name: {k: red[min(1, len(red) - 1)] for k in many}})
         else:
             out.append({name: {keys[0]: red[0], keys[-1]: red[-1]}})
     return out
